@@ -36,6 +36,11 @@ CLAIMED = {
         text='Exploration with an exhaustive sub-space: all 2^5 request-flag subsets x 3 report-to values x 8 outcomes (incl. forward with real fragmentation, security failure, duplicate) x 3 CRC types = 2304 combinations, each on a fresh agent; report presence, addressee, subject, asserted set, times, flags and CRCs are checked.',
         note=_NOTE + ' For "no route" and "duplicate" only the only-if direction and content are enforced.',
     ),
+    'C06': dict(
+        technique='runtime history monitor: application observer after every fragment arrival at the real BP agent, against an integer coverage model with position-coded payloads',
+        text='Exploration with exhaustive sub-spaces: all permutations of fragment sets of up to 5 (thorough 6) pieces for uniform, uneven, overlapping, nested, same-offset and zero-length fragmentations, every single duplicate at every position for sets up to 4, seeded permutations up to 200 fragments, 2-3 interleaved bundles differing in one identity component, and fragment sets produced by the real fragmenter; exactly one delivery, at the completing arrival, with the original payload and the first fragment\'s extension blocks.',
+        note=_NOTE,
+    ),
     'C07': dict(
         technique='runtime monitor: recv_message recorder + receive-buffer probe on the real endpoint, judged by an independent RFC 9174 stream parser; codec differential both ways',
         text='Exploration with exhaustive sub-spaces: every composition (2^13) of 14-octet streams, every single cut of streams up to 300 octets, directed and random cuts of long streams, plus loop-driven runs; each feed step is checked for exactly-the-completed-messages and exact buffer occupancy. Codec half compares fields in both directions for directed boundary values and seeded random messages of all seven types and the contact header.',
